@@ -330,6 +330,8 @@ pub struct ConcResult {
     pub stamp_mismatch: Option<String>,
     /// C04: a tracker recorded as confirmed at a height that is not the height of the block holding its penalty.
     pub conf_mismatch: Option<String>,
+    /// C02: a penalty handed to the node after the (only) owner of its appointment had been removed.
+    pub late_submission: Option<String>,
 }
 
 fn project(ctx: &TowerCtx, replies: Vec<Vec<String>>, log: &EventLog, from: usize, duration: u32, base_height: u32) -> Projection {
@@ -461,7 +463,22 @@ fn run_scenario_here(sc: &Scenario, strategy: Option<Strategy>, order: Option<&[
             st.roots.insert(uni.fund_outpoint(d));
         }
     }
-    teos_common::verif::set_crash_callback(None);
+    {
+        // no crashes in this engine: the crash points only mark, in the event log, when a purge of users became durable
+        let log2 = log.clone();
+        let db_path2 = dir.join("teos_db.sql3");
+        teos_common::verif::set_crash_callback(Some(Arc::new(move |site: &'static str| {
+            if site == "tower::batch_remove_users:before_commit" {
+                // what the last committed state holds right before the purge becomes durable (a second connection reads
+                // the state before the open transaction)
+                let rows: Vec<String> = DbReader::open(&db_path2).dump().appointments.iter().map(|a| hex::encode(&a.uuid)).collect();
+                log2.push(Event::Note(format!("purge_precommit:{}", rows.join(","))));
+            }
+            if site == "tower::batch_remove_users:after_commit" {
+                log2.push(Event::Note("users_removed".into()));
+            }
+        })));
+    }
     let aborts: Arc<Mutex<Vec<PanicInfo>>> = Arc::new(Mutex::new(vec![]));
     let res = catch_unwind(AssertUnwindSafe(|| {
         tower::run_tower(&dir, &node, &sc.cfg, &log, false, |ctx| {
@@ -771,6 +788,54 @@ fn run_scenario_here(sc: &Scenario, strategy: Option<Strategy>, order: Option<&[
                     }
                 }
             }
+            // C02 (absolute): nothing is submitted on behalf of an appointment whose owner has been removed. In the event log
+            // of the phase: a sendrawtransaction of a penalty that comes after the commit of a purge, when every user who
+            // submitted that penalty in this scenario is gone from the database now.
+            let mut late_submission = None;
+            {
+                let db = DbReader::open(&ctx.db_path).dump();
+                let mut owners: BTreeMap<Txid, (BTreeSet<u32>, u32)> = BTreeMap::new();
+                for op in sc.prefix.iter().chain(sc.threads.iter().flatten()) {
+                    if let Op::Add { u, d, blob: Blob::Valid { v, len }, sig, .. } = op {
+                        let who = match sig {
+                            Sig::OtherUser(u2) => *u2,
+                            _ => *u,
+                        };
+                        let e = owners.entry(uni.penalty(*d, *v, *len).compute_txid()).or_insert((BTreeSet::new(), *d));
+                        e.0.insert(who);
+                    }
+                }
+                let mut purged_before = false;
+                let mut rows_before_purge: BTreeSet<String> = BTreeSet::new();
+                for e in log.since(ev_from) {
+                    match e {
+                        Event::Note(n) if n.starts_with("purge_precommit:") => {
+                            rows_before_purge = n["purge_precommit:".len()..].split(',').filter(|x| !x.is_empty()).map(|x| x.to_string()).collect();
+                        }
+                        Event::Note(n) if n == "users_removed" => purged_before = true,
+                        Event::Rpc { method: "sendrawtransaction", txid: Some(t), verdict } if purged_before && verdict != Verdict::Transport => {
+                            if let Some((us, d)) = owners.get(&t) {
+                                let any_left = us.iter().any(|u| db.users.iter().any(|r| r.user_id == req.pk(*u)));
+                                if !any_left {
+                                    // Was the appointment on disk when its owner was purged (the request had stored it and was
+                                    // about to answer the breach: a benign overlap), or had the owner gone before the tower
+                                    // even stored it?
+                                    let stored = us.iter().any(|u| {
+                                        let mut data = req.locator(*d).to_vec();
+                                        data.extend(req.pk(*u));
+                                        rows_before_purge.contains(&hex::encode(bitcoin::hashes::ripemd160::Hash::hash(&data).to_byte_array()))
+                                    });
+                                    late_submission = Some(format!(
+                                        "{}|penalty {t} was submitted after the purge that removed its only owner(s) {us:?} had been committed",
+                                        if stored { "stored_before_purge" } else { "never_stored" }
+                                    ));
+                                }
+                            }
+                        }
+                        _ => {}
+                    }
+                }
+            }
             let rpc_log: Vec<(String, Option<Txid>, Verdict)> = log
                 .since(ev_from)
                 .into_iter()
@@ -813,10 +878,12 @@ fn run_scenario_here(sc: &Scenario, strategy: Option<Strategy>, order: Option<&[
                 replies_during_outage_ok: true,
                 stamp_mismatch: take_stamp_mismatch(),
                 conf_mismatch,
+                late_submission,
             }
         })
     }));
     teos_common::verif::set_sync_hooks(None);
+    teos_common::verif::set_crash_callback(None);
     crate::hooks::set_rpc_yield(None);
     set_cache_probe(None);
     let _ = take_stamp_mismatch();
@@ -855,6 +922,7 @@ fn run_scenario_here(sc: &Scenario, strategy: Option<Strategy>, order: Option<&[
                 replies_during_outage_ok: true,
                 stamp_mismatch: None,
                 conf_mismatch: None,
+                late_submission: None,
             }
         }
     }
